@@ -24,7 +24,16 @@ var (
 
 	// A seed for the pseudo-random number generator used by getRandomData
 	prngSeed = 0xdeadc0de
+
+	errRegionSizeOverflow = &kernel.Error{Module: "goruntime", Message: "region size overflows when rounded up to a page multiple"}
 )
+
+// roundUpToPage rounds size up to a multiple of the page size. It returns
+// false if the rounded value does not fit in a uintptr.
+func roundUpToPage(size uintptr) (uintptr, bool) {
+	rounded := (size + mm.PageSize - 1) & ^(mm.PageSize - 1)
+	return rounded, rounded >= size
+}
 
 // initGoPackages is an alias to main.init which recursively calls the init()
 // methods in all imported packages. Unless this function is called, things like
@@ -52,7 +61,11 @@ func runtimeInit() {
 //go:redirect-from runtime.sysReserve
 //go:nosplit
 func sysReserve(_ unsafe.Pointer, size uintptr, reserved *bool) unsafe.Pointer {
-	regionSize := (size + mm.PageSize - 1) & ^(mm.PageSize - 1)
+	regionSize, ok := roundUpToPage(size)
+	if !ok {
+		panic(errRegionSizeOverflow)
+	}
+
 	regionStartAddr, err := earlyReserveRegionFn(regionSize)
 	if err != nil {
 		panic(err)
@@ -77,7 +90,10 @@ func sysMap(virtAddr unsafe.Pointer, size uintptr, reserved bool, sysStat *uint6
 
 	// We trust the allocator to call sysMap with an address inside a reserved region.
 	regionStartAddr := (uintptr(virtAddr) + uintptr(mm.PageSize-1)) & ^uintptr(mm.PageSize-1)
-	regionSize := (size + mm.PageSize - 1) & ^(mm.PageSize - 1)
+	regionSize, ok := roundUpToPage(size)
+	if !ok {
+		return unsafe.Pointer(uintptr(0))
+	}
 	pageCount := regionSize >> mm.PageShift
 
 	mapFlags := vmm.FlagPresent | vmm.FlagNoExecute | vmm.FlagCopyOnWrite
@@ -101,7 +117,11 @@ func sysMap(virtAddr unsafe.Pointer, size uintptr, reserved bool, sysStat *uint6
 //go:redirect-from runtime.sysAlloc
 //go:nosplit
 func sysAlloc(size uintptr, sysStat *uint64) unsafe.Pointer {
-	regionSize := (size + mm.PageSize - 1) & ^(mm.PageSize - 1)
+	regionSize, ok := roundUpToPage(size)
+	if !ok {
+		return unsafe.Pointer(uintptr(0))
+	}
+
 	regionStartAddr, err := earlyReserveRegionFn(regionSize)
 	if err != nil {
 		return unsafe.Pointer(uintptr(0))
